@@ -155,6 +155,250 @@ theorem idiv_trunc (n d : Int) (hd : d ≠ 0) :
 theorem exec_frame (hh : HasHooks) (i : Instr) (s s' : Machine) (h : exec hh i s = .ok s') :
     s'.ctl = s.ctl ∧ s'.fs = s.fs ∧ s'.gs = s.gs := exec_ctl h
 
+/-! bit-vector facts used below (stated without an instruction in scope) -/
+theorem flags_within_CO (x : BitVec 64) (h : x &&& ~~~CO = 0) : x = x &&& CO := by
+  simp only [CO, FLAG_CF, FLAG_OF] at h ⊢
+  bv_decide
+theorem low32_setWidth (x : BitVec 64) : (x &&& 0xFFFFFFFF#64).setWidth 32 = x.setWidth 32 := by bv_decide
+theorem low32_setWidth' (x : BitVec 64) : ((x &&& 0xFFFFFFFF#64).setWidth 32).setWidth 32 = x.setWidth 32 := by bv_decide
+theorem mov32_value (x : BitVec 64) :
+    (((x &&& 0xFFFFFFFF#64).setWidth 32).setWidth 32).setWidth 64 = (x.setWidth 32).setWidth 64 := by bv_decide
+
+/-! ## end to end: decoded instruction → registers and flags (64-bit register forms of the `r/m, r` family) -/
+
+/-- **What a 64-bit `op r/m64, r64` with two register operands does, through the whole dispatch**: for every table row
+    of the `r/m, r` family at width 64 — ADD, ADC, SUB, CMP, AND, XOR, MOV — and every pair of 64-bit registers (equal or
+    not) the instruction reads exactly those two registers (source first), computes the operation, sets the flags
+    through the flag macro with the row's masks, and writes the destination register unless the row says
+    NO_WRITEBACK; nothing else of the machine changes. -/
+theorem exec_rmR64_regs (hh : HasHooks) (i : Instr) (s : Machine) (d sr : Fin 16) (op : Op2) (set clear : BitVec 64)
+    (hrow : lookup i.code = some (.rmR 64 64 op set clear))
+    (hops : instructionOperands2 i = .ok (.register (.g64 d), .register (.g64 sr))) :
+    exec hh i s =
+      match setFlags (set ||| (applyOp2 op (s.rflags &&& FLAG_CF != 0) 64 64 (s.regs.get d) (s.regs.get sr)).2) clear
+          ((applyOp2 op (s.rflags &&& FLAG_CF != 0) 64 64 (s.regs.get d) (s.regs.get sr)).1.setWidth 64) s.rflags with
+      | .ok f =>
+        if set &&& NO_WRITEBACK == 0 then
+          .ok { s with rflags := f,
+                       regs := s.regs.set d (applyOp2 op (s.rflags &&& FLAG_CF != 0) 64 64 (s.regs.get d) (s.regs.get sr)).1 }
+        else .ok { s with rflags := f }
+      | .err => .err
+      | .panic => .panic := by
+  unfold exec
+  simp only [hrow, calcRmR, hops, AxOperand.toReg, readReg, regReadW, regRead64, readRM, finish, setFlagsW]
+  cases hf : setFlags (set ||| (applyOp2 op (s.rflags &&& FLAG_CF != 0) 64 64 (s.regs.get d) (s.regs.get sr)).2) clear
+      ((applyOp2 op (s.rflags &&& FLAG_CF != 0) 64 64 (s.regs.get d) (s.regs.get sr)).1.setWidth 64) s.rflags with
+  | err => simp [ExecRes.ofOut]
+  | panic => simp [ExecRes.ofOut]
+  | ok f =>
+    simp only
+    split
+    · simp [ExecRes.ofOut, writeRM, writeReg, regWriteW, regWrite64]
+    · simp [ExecRes.ofOut]
+
+theorem lookup_add64 : lookup "Add_rm64_r64" = some (.rmR 64 64 .add SZP CO) := by decide +kernel
+theorem lookup_sub64 : lookup "Sub_rm64_r64" = some (.rmR 64 64 .sub SZP CO) := by decide +kernel
+theorem lookup_cmp64 : lookup "Cmp_rm64_r64" = some (.rmR 64 64 .sub (NO_WRITEBACK ||| SZP) CO) := by decide +kernel
+theorem lookup_mov64 : lookup "Mov_rm64_r64" = some (.rmR 64 64 .mov U 0) := by decide +kernel
+
+/-- **ADD r64, r64, end to end**: the destination becomes the sum modulo 2^64; CF ⇔ unsigned overflow, OF ⇔ signed
+    overflow, ZF ⇔ the sum is 0, SF its sign bit, PF the parity of its low byte; every other flag bit, every other
+    register, memory and control state are untouched. -/
+theorem add_r64_r64 (hh : HasHooks) (i : Instr) (s : Machine) (d sr : Fin 16) (hc : i.code = "Add_rm64_r64")
+    (hops : instructionOperands2 i = .ok (.register (.g64 d), .register (.g64 sr))) :
+    ∃ f, exec hh i s = .ok { s with rflags := f, regs := s.regs.set d (s.regs.get d + s.regs.get sr) } ∧
+      C02.has f FLAG_CF = BitVec.uaddOverflow (s.regs.get d) (s.regs.get sr) ∧
+      C02.has f FLAG_OF = BitVec.saddOverflow (s.regs.get d) (s.regs.get sr) ∧
+      C02.has f FLAG_ZF = decide (s.regs.get d + s.regs.get sr = 0) ∧
+      C02.has f FLAG_SF = (s.regs.get d + s.regs.get sr).msb ∧
+      C02.has f FLAG_PF = parityEven (s.regs.get d + s.regs.get sr) ∧
+      f &&& ~~~(SZP ||| CO ||| NO_WRITEBACK) = s.rflags &&& ~~~(SZP ||| CO ||| NO_WRITEBACK) := by
+  have hrow : lookup i.code = some (.rmR 64 64 .add SZP CO) := by rw [hc]; exact lookup_add64
+  have hspec := C02.add_spec_64 (s.regs.get d) (s.regs.get sr)
+  obtain ⟨hres, hcf, hof, hrest⟩ := hspec
+  have happ : applyOp2 .add (s.rflags &&& FLAG_CF != 0) 64 64 (s.regs.get d) (s.regs.get sr) =
+      ((opAdd (s.regs.get d) (s.regs.get sr)).1, (opAdd (s.regs.get d) (s.regs.get sr)).2) := by
+    simp [applyOp2]
+  have hfl : (opAdd (s.regs.get d) (s.regs.get sr)).2 = (opAdd (s.regs.get d) (s.regs.get sr)).2 &&& CO :=
+    flags_within_CO _ hrest
+  obtain ⟨f, hf, hz, hs, hp, hcf', hof', hkeep⟩ :=
+    C02.setFlags_alu false (opAdd (s.regs.get d) (s.regs.get sr)).2 ((opAdd (s.regs.get d) (s.regs.get sr)).1) s.rflags
+  refine ⟨f, ?_, ?_, ?_, ?_, ?_, ?_, hkeep⟩
+  · rw [exec_rmR64_regs hh i s d sr .add SZP CO hrow hops, happ]
+    simp only [BitVec.setWidth_eq]
+    have hset : SZP ||| (opAdd (s.regs.get d) (s.regs.get sr)).2 = C02.aluSet false (opAdd (s.regs.get d) (s.regs.get sr)).2 := by
+      rw [C02.aluSet, ← hfl]; simp
+    rw [hset, hf]
+    have hnw : (SZP &&& NO_WRITEBACK == 0) = true := by
+      simp only [SZP, NO_WRITEBACK, FLAG_SF, FLAG_ZF, FLAG_PF]; decide
+    simp only [hnw, if_true, hres]
+  · rw [hcf', hcf]
+  · rw [hof', hof]
+  · rw [hz, hres]
+  · rw [hs, hres]
+  · rw [hp, hres]
+
+/-- **SUB r64, r64, end to end**: the destination becomes the difference modulo 2^64; CF ⇔ borrow, OF ⇔ signed
+    overflow, ZF ⇔ the difference is 0, SF its sign bit, PF the parity of its low byte; every other flag bit, every other
+    register, memory and control state are untouched. -/
+theorem sub_r64_r64 (hh : HasHooks) (i : Instr) (s : Machine) (d sr : Fin 16) (hc : i.code = "Sub_rm64_r64")
+    (hops : instructionOperands2 i = .ok (.register (.g64 d), .register (.g64 sr))) :
+    ∃ f, exec hh i s = .ok { s with rflags := f, regs := s.regs.set d (s.regs.get d - s.regs.get sr) } ∧
+      C02.has f FLAG_CF = BitVec.usubOverflow (s.regs.get d) (s.regs.get sr) ∧
+      C02.has f FLAG_OF = BitVec.ssubOverflow (s.regs.get d) (s.regs.get sr) ∧
+      C02.has f FLAG_ZF = decide (s.regs.get d - s.regs.get sr = 0) ∧
+      C02.has f FLAG_SF = (s.regs.get d - s.regs.get sr).msb ∧
+      C02.has f FLAG_PF = parityEven (s.regs.get d - s.regs.get sr) ∧
+      f &&& ~~~(SZP ||| CO ||| NO_WRITEBACK) = s.rflags &&& ~~~(SZP ||| CO ||| NO_WRITEBACK) := by
+  have hrow : lookup i.code = some (.rmR 64 64 .sub SZP CO) := by rw [hc]; exact lookup_sub64
+  have hspec := C02.sub_spec_64 (s.regs.get d) (s.regs.get sr)
+  obtain ⟨hres, hcf, hof, hrest⟩ := hspec
+  have happ : applyOp2 .sub (s.rflags &&& FLAG_CF != 0) 64 64 (s.regs.get d) (s.regs.get sr) =
+      ((opSub (s.regs.get d) (s.regs.get sr)).1, (opSub (s.regs.get d) (s.regs.get sr)).2) := by
+    simp [applyOp2]
+  have hfl : (opSub (s.regs.get d) (s.regs.get sr)).2 = (opSub (s.regs.get d) (s.regs.get sr)).2 &&& CO :=
+    flags_within_CO _ hrest
+  obtain ⟨f, hf, hz, hs, hp, hcf', hof', hkeep⟩ :=
+    C02.setFlags_alu false (opSub (s.regs.get d) (s.regs.get sr)).2 ((opSub (s.regs.get d) (s.regs.get sr)).1) s.rflags
+  refine ⟨f, ?_, ?_, ?_, ?_, ?_, ?_, hkeep⟩
+  · rw [exec_rmR64_regs hh i s d sr .sub SZP CO hrow hops, happ]
+    simp only [BitVec.setWidth_eq]
+    have hset : SZP ||| (opSub (s.regs.get d) (s.regs.get sr)).2 = C02.aluSet false (opSub (s.regs.get d) (s.regs.get sr)).2 := by
+      rw [C02.aluSet, ← hfl]; simp
+    rw [hset, hf]
+    have hnw : (SZP &&& NO_WRITEBACK == 0) = true := by
+      simp only [SZP, NO_WRITEBACK, FLAG_SF, FLAG_ZF, FLAG_PF]; decide
+    simp only [hnw, if_true, hres]
+  · rw [hcf', hcf]
+  · rw [hof', hof]
+  · rw [hz, hres]
+  · rw [hs, hres]
+  · rw [hp, hres]
+
+/-- **CMP r64, r64, end to end**: no register changes; the flags are those of the difference: CF ⇔ borrow, OF ⇔ signed
+    overflow, ZF ⇔ the difference is 0, SF its sign bit, PF the parity of its low byte; every other flag bit, every other
+    register, memory and control state are untouched. -/
+theorem cmp_r64_r64 (hh : HasHooks) (i : Instr) (s : Machine) (d sr : Fin 16) (hc : i.code = "Cmp_rm64_r64")
+    (hops : instructionOperands2 i = .ok (.register (.g64 d), .register (.g64 sr))) :
+    ∃ f, exec hh i s = .ok { s with rflags := f } ∧
+      C02.has f FLAG_CF = BitVec.usubOverflow (s.regs.get d) (s.regs.get sr) ∧
+      C02.has f FLAG_OF = BitVec.ssubOverflow (s.regs.get d) (s.regs.get sr) ∧
+      C02.has f FLAG_ZF = decide (s.regs.get d - s.regs.get sr = 0) ∧
+      C02.has f FLAG_SF = (s.regs.get d - s.regs.get sr).msb ∧
+      C02.has f FLAG_PF = parityEven (s.regs.get d - s.regs.get sr) ∧
+      f &&& ~~~(SZP ||| CO ||| NO_WRITEBACK) = s.rflags &&& ~~~(SZP ||| CO ||| NO_WRITEBACK) := by
+  have hrow : lookup i.code = some (.rmR 64 64 .sub (NO_WRITEBACK ||| SZP) CO) := by rw [hc]; exact lookup_cmp64
+  have hspec := C02.sub_spec_64 (s.regs.get d) (s.regs.get sr)
+  obtain ⟨hres, hcf, hof, hrest⟩ := hspec
+  have happ : applyOp2 .sub (s.rflags &&& FLAG_CF != 0) 64 64 (s.regs.get d) (s.regs.get sr) =
+      ((opSub (s.regs.get d) (s.regs.get sr)).1, (opSub (s.regs.get d) (s.regs.get sr)).2) := by
+    simp [applyOp2]
+  have hfl : (opSub (s.regs.get d) (s.regs.get sr)).2 = (opSub (s.regs.get d) (s.regs.get sr)).2 &&& CO :=
+    flags_within_CO _ hrest
+  obtain ⟨f, hf, hz, hs, hp, hcf', hof', hkeep⟩ :=
+    C02.setFlags_alu true (opSub (s.regs.get d) (s.regs.get sr)).2 ((opSub (s.regs.get d) (s.regs.get sr)).1) s.rflags
+  refine ⟨f, ?_, ?_, ?_, ?_, ?_, ?_, hkeep⟩
+  · rw [exec_rmR64_regs hh i s d sr .sub (NO_WRITEBACK ||| SZP) CO hrow hops, happ]
+    simp only [BitVec.setWidth_eq]
+    have hset : NO_WRITEBACK ||| SZP ||| (opSub (s.regs.get d) (s.regs.get sr)).2 = C02.aluSet true (opSub (s.regs.get d) (s.regs.get sr)).2 := by
+      rw [C02.aluSet, ← hfl]; simp
+    rw [hset, hf]
+    have hnw : ((NO_WRITEBACK ||| SZP) &&& NO_WRITEBACK == 0) = false := by
+      simp only [SZP, NO_WRITEBACK, FLAG_SF, FLAG_ZF, FLAG_PF]; decide
+    simp only [hnw, Bool.false_eq_true, if_false]
+  · rw [hcf', hcf]
+  · rw [hof', hof]
+  · rw [hz, hres]
+  · rw [hs, hres]
+  · rw [hp, hres]
+
+/-- **MOV r64, r64, end to end**: the destination becomes the source, the flags are untouched. -/
+theorem mov_r64_r64 (hh : HasHooks) (i : Instr) (s : Machine) (d sr : Fin 16) (hc : i.code = "Mov_rm64_r64")
+    (hops : instructionOperands2 i = .ok (.register (.g64 d), .register (.g64 sr))) :
+    exec hh i s = .ok { s with regs := s.regs.set d (s.regs.get sr) } := by
+  have hrow : lookup i.code = some (.rmR 64 64 .mov U 0) := by rw [hc]; exact lookup_mov64
+  rw [exec_rmR64_regs hh i s d sr .mov U 0 hrow hops]
+  have happ : applyOp2 .mov (s.rflags &&& FLAG_CF != 0) 64 64 (s.regs.get d) (s.regs.get sr) = (s.regs.get sr, 0) := by
+    simp [applyOp2]
+  rw [happ]
+  have hu : U ||| (0 : BitVec 64) = FLAGS_UNAFFECTED := by simp [U]
+  simp only [hu, C02.unaffected_kept]
+  have hnw : U &&& NO_WRITEBACK = 0#64 := by simp only [U, FLAGS_UNAFFECTED, NO_WRITEBACK]; decide
+  simp [hnw]
+
+/-! ## … and the 32-bit register forms: the upper half of the destination is cleared -/
+
+theorem lookup_add32 : lookup "Add_rm32_r32" = some (.rmR 32 32 .add SZP CO) := by decide +kernel
+theorem lookup_mov32 : lookup "Mov_rm32_r32" = some (.rmR 32 32 .mov U 0) := by decide +kernel
+
+/-- a 32-bit value written through a 32-bit view replaces the whole parent register, zero-extended -/
+theorem writeReg32_fit (s : Machine) (d : Fin 16) (v : BitVec 32) :
+    writeReg s 32 (.g32 d) (v.setWidth 64) = .ok { s with regs := s.regs.set d (v.setWidth 64) } := by
+  have hfit : ¬ 0xFFFFFFFF < (v.setWidth 64).toNat := by
+    have : (v.setWidth 64).toNat < 2 ^ 32 := by
+      simp only [BitVec.toNat_setWidth]
+      have := v.isLt
+      omega
+    omega
+  have hid : ((v.setWidth 64).setWidth 32).setWidth 64 = v.setWidth 64 := by
+    simp [BitVec.setWidth_setWidth_of_le]
+  simp only [writeReg, regWriteW, regWrite32, hfit, if_false, hid]
+
+/-- **MOV r32, r32, end to end**: the destination's low half becomes the source's low half and its upper half 0
+    (the architecture's zero extension of 32-bit results), flags untouched. -/
+theorem mov_r32_r32 (hh : HasHooks) (i : Instr) (s : Machine) (d sr : Fin 16) (hc : i.code = "Mov_rm32_r32")
+    (hops : instructionOperands2 i = .ok (.register (.g32 d), .register (.g32 sr))) :
+    exec hh i s = .ok { s with regs := s.regs.set d (((s.regs.get sr).setWidth 32).setWidth 64) } := by
+  have hrow : lookup i.code = some (.rmR 32 32 .mov U 0) := by rw [hc]; exact lookup_mov32
+  unfold exec
+  simp only [hrow, calcRmR, hops, AxOperand.toReg, readReg, regReadW, regRead32, readRM, finish, setFlagsW]
+  have happ : applyOp2 .mov (s.rflags &&& FLAG_CF != 0) 32 32 (s.regs.get d &&& 0xFFFFFFFF#64) (s.regs.get sr &&& 0xFFFFFFFF#64) =
+      (((s.regs.get sr).setWidth 32).setWidth 64, 0) := by
+    simp only [applyOp2, Prod.mk.injEq, and_true]
+    exact mov32_value _
+  rw [happ]
+  have hu : U ||| (0 : BitVec 64) = FLAGS_UNAFFECTED := by simp [U]
+  simp only [hu, C02.unaffected_kept]
+  have hnw : (U &&& NO_WRITEBACK == 0) = true := by simp only [U, FLAGS_UNAFFECTED, NO_WRITEBACK]; decide
+  simp only [hnw, if_true, writeRM, writeReg32_fit, ExecRes.ofOut]
+
+/-- **ADD r32, r32, end to end**: the destination register becomes the zero-extended 32-bit sum of the two low halves
+    — the upper half is cleared whatever it held. -/
+theorem add_r32_r32_value (hh : HasHooks) (i : Instr) (s : Machine) (d sr : Fin 16) (hc : i.code = "Add_rm32_r32")
+    (hops : instructionOperands2 i = .ok (.register (.g32 d), .register (.g32 sr))) :
+    ∃ f, exec hh i s =
+      .ok { s with rflags := f, regs := s.regs.set d (((s.regs.get d).setWidth 32 + (s.regs.get sr).setWidth 32).setWidth 64) } := by
+  have hrow : lookup i.code = some (.rmR 32 32 .add SZP CO) := by rw [hc]; exact lookup_add32
+  unfold exec
+  simp only [hrow, calcRmR, hops, AxOperand.toReg, readReg, regReadW, regRead32, readRM, finish, setFlagsW]
+  have hd := low32_setWidth (s.regs.get d)
+  have hs := low32_setWidth' (s.regs.get sr)
+  have happ : applyOp2 .add (s.rflags &&& FLAG_CF != 0) 32 32 (s.regs.get d &&& 0xFFFFFFFF#64) (s.regs.get sr &&& 0xFFFFFFFF#64) =
+      (((opAdd ((s.regs.get d).setWidth 32) ((s.regs.get sr).setWidth 32)).1).setWidth 64,
+       (opAdd ((s.regs.get d).setWidth 32) ((s.regs.get sr).setWidth 32)).2) := by
+    simp only [applyOp2, hd, hs]
+  rw [happ]
+  obtain ⟨hres, _, _, hrest⟩ := C02.add_spec_32 ((s.regs.get d).setWidth 32) ((s.regs.get sr).setWidth 32)
+  have hfl : (opAdd ((s.regs.get d).setWidth 32) ((s.regs.get sr).setWidth 32)).2 =
+      (opAdd ((s.regs.get d).setWidth 32) ((s.regs.get sr).setWidth 32)).2 &&& CO := flags_within_CO _ hrest
+  obtain ⟨f, hf, _⟩ := C02.setFlags_alu false (opAdd ((s.regs.get d).setWidth 32) ((s.regs.get sr).setWidth 32)).2
+    ((opAdd ((s.regs.get d).setWidth 32) ((s.regs.get sr).setWidth 32)).1) s.rflags
+  have hset : SZP ||| (opAdd ((s.regs.get d).setWidth 32) ((s.regs.get sr).setWidth 32)).2 =
+      C02.aluSet false (opAdd ((s.regs.get d).setWidth 32) ((s.regs.get sr).setWidth 32)).2 := by
+    rw [C02.aluSet, ← hfl]; simp
+  refine ⟨f, ?_⟩
+  have hsw : ((opAdd ((s.regs.get d).setWidth 32) ((s.regs.get sr).setWidth 32)).1.setWidth 64).setWidth 32 =
+      (opAdd ((s.regs.get d).setWidth 32) ((s.regs.get sr).setWidth 32)).1 := by
+    simp [BitVec.setWidth_setWidth_of_le]
+  rw [hset, hsw, hf]
+  have hnw : (SZP &&& NO_WRITEBACK == 0) = true := by
+    simp only [SZP, NO_WRITEBACK, FLAG_SF, FLAG_ZF, FLAG_PF]; decide
+  simp only [hnw, if_true, ExecRes.ofOut, writeRM, writeReg32_fit, hres]
+
+/-! non-vacuity: a decoded `add rbx, rcx` meets the hypotheses -/
+def addRbxRcx : Instr := { code := "Add_rm64_r64", mnem := "Add", len := 3, nextIp := 0x1003#64, ops := [.reg (.reg (.g64 3)), .reg (.reg (.g64 1))] }
+example : instructionOperands2 addRbxRcx = .ok (.register (.g64 3), .register (.g64 1)) := by rfl
+
 /-! ## the implemented set -/
 
 def implemented : List String :=
